@@ -218,6 +218,8 @@ var c02Attrs = []string{
 	// values that match the element patterns of the policies (a rule must judge values by its value pattern, not by
 	// whatever other regexp the builder had at hand)
 	` id=my-x`, ` name=my-xy`,
+	// attribute names that Unicode (not ASCII) lower-casing folds onto allowed names
+	" \u0130d=abc", " t\u0130tle=t", " \u212aind=k",
 }
 
 var c02Elements = []string{"span", "a", "my-x", "my-xy", "my-y", "q"}
